@@ -33,7 +33,7 @@ BaseCfg == [ctl |-> "DistRatio", newton |-> "Simplified", pen |-> "DualNorm",
 Ctls == {"Exact", "Fixed", "ResRatio", "DistRatio"}
 Pens == {"Constant", "DualNorm", "DualEquil", "Pareto", "ObjFilter", "LagFilter"}
 
-AllPts == {0} \cup UNION {{hist[r][k].pt : k \in 1..Len(hist[r])} : r \in Runs} \cup UNION {bad[r] : r \in Runs}
+AllPts == {0} \cup UNION {{hist[r][k].pt : k \in 1..Len(hist[r])} : r \in Runs} \cup UNION {{b[1] : b \in bad[r]} : r \in Runs}
 NextId == 1 + (CHOOSE x \in AllPts : \A y \in AllPts : y <= x)
 
 Seq2(S) == SetToSeq(S)
